@@ -16,7 +16,7 @@ RULE = (
     "callable matchers; timeout; start tick; optional cancellation tick) and <=8 incoming messages over the server "
     "connection and two peer connections of a real Network on the in-memory TCP layer (matching one, several or no "
     "request; wrong peer; right class wrong field; optionally glued to the previous message in one TCP segment so "
-    "both are processed back-to-back), all on a 1 ms tick grid with 1 ms latency. Oracle (reference model, first "
+    "both are processed back-to-back; optionally the expected peer's message connection closes by EOF / reset and the peer comes back on a fresh connection 0..4 ticks later, replies then travel over the new connection), all on a 1 ms tick grid with 1 ms latency. Oracle (reference model, first "
     "match): a request completes with the first message arriving strictly after its registration and strictly "
     "before its deadline/cancellation that has the expected class, comes from the expected server/peer connection "
     "and satisfies all field matchers; otherwise TimeoutError (cancelled caller: CancelledError) and never another "
@@ -121,7 +121,13 @@ def case_strategy(draw):
             values = {fname: draw(st.sampled_from(dom)) for fname, dom in FIELDS[name].items()}
         inc.append({'conn': conn, 'cls': name, 'values': values, 'at': draw(st.integers(0, 20)),
                     'glue': draw(st.booleans())})
-    return {'requests': reqs, 'incoming': inc}
+    # the expected peer's message connection closes and the peer comes back on a fresh one (0..4 ticks later):
+    # a reply over the new connection is still a reply from the expected peer
+    reconn = draw(st.lists(st.fixed_dictionaries({'conn': st.sampled_from(['peer0', 'peer1']),
+                                                  'at': st.integers(0, 20), 'gap': st.integers(0, 4),
+                                                  'how': st.sampled_from(['eof', 'reset'])}),
+                           max_size=2)) if draw(st.integers(0, 2)) == 0 else []
+    return {'requests': reqs, 'incoming': inc, 'reconn': reconn}
 
 
 # ---------------------------------------------------------------------------
@@ -165,7 +171,26 @@ def _sanitise(case):
                         'glue': bool(m.get('glue'))})
         except Exception:
             continue
-    return reqs, inc
+    reconn = []
+    last_open = {}
+    for e in sorted((e for e in (case.get('reconn') or [])[:3] if isinstance(e, dict)),
+                    key=lambda e: (int(e.get('at', 0)) if isinstance(e.get('at', 0), int) else 0)):
+        try:
+            conn = e['conn'] if e.get('conn') in ('peer0', 'peer1') else 'peer0'
+            at = max(0, min(40, int(e.get('at', 0))))
+            gap = max(0, min(6, int(e.get('gap', 0))))
+            if conn in last_open and at <= last_open[conn]:
+                at = last_open[conn] + 1
+            last_open[conn] = at + gap
+            reconn.append({'conn': conn, 'at': at, 'gap': gap, 'how': 'reset' if e.get('how') == 'reset' else 'eof'})
+        except Exception:
+            continue
+    # nothing can be sent to the client while the peer has no connection: such messages leave when it is back
+    for m in inc:
+        for e in reconn:
+            if m['conn'] == e['conn'] and e['at'] <= m['at'] < e['at'] + e['gap']:
+                m['at'] = e['at'] + e['gap']
+    return reqs, inc, reconn
 
 
 def _field_ok(matcher, actual):
@@ -186,7 +211,7 @@ def run_case(case) -> CaseResult:
         from checks import c12_cmd
         c12_cmd.run_cmd_case(case, res)
         return res
-    reqs, inc = _sanitise(case)
+    reqs, inc, reconn = _sanitise(case)
     if not reqs:
         return res
     from async_timeout import timeout as atimeout
@@ -297,13 +322,24 @@ def run_case(case) -> CaseResult:
 
         # one timer per tick (equal-deadline timers are not FIFO in asyncio): sends stay in list order
         by_tick = {}
+        for e in reconn:       # connection events come first within their tick
+            by_tick.setdefault(e['at'], []).append((e['conn'], ('close', e['how'])))
+            by_tick.setdefault(e['at'] + e['gap'], []).append((e['conn'], ('open',)))
         for tick, conn, idxs in segments:
             data = b''.join(_build(inc[i]['cls'], inc[i]['values']).serialize() for i in idxs)
             by_tick.setdefault(tick, []).append((conn, data))
 
         def send_all(items):
             for conn, data in items:
-                eps[conn].send(data)
+                if isinstance(data, tuple):
+                    if data[0] == 'close':
+                        (eps[conn].reset if data[1] == 'reset' else eps[conn].close)()
+                    else:
+                        k = int(conn[-1])
+                        peers[k] = world.peers[conn].connect('P', port=settings.network.listening.port)
+                        eps[conn] = peers[k].ep
+                else:
+                    eps[conn].send(data)
         for tick, items in sorted(by_tick.items()):
             loop.call_at(t0 + tick * TICK, send_all, items)
 
